@@ -2,6 +2,7 @@ package main
 
 import (
 	"fmt"
+	"os"
 	"reflect"
 	"sort"
 
@@ -156,6 +157,7 @@ func checkRepair(o *Out, ff []gts.Feature) {
 }
 
 func runC12(o *Out) {
+	runC12CLI(o)
 	L := 12
 	propsets := []gts.Props{{{"gene", "a"}}, {{"gene", "a"}, {"note", "x y"}},
 		// classes that differ only in an earlier value of a repeated qualifier, or only in qualifier order
@@ -191,6 +193,14 @@ func runC12(o *Out) {
 			checkRepair(o, []gts.Feature{{Key: key, Loc: left, Props: pa}, {Key: key, Loc: right, Props: pb}})
 			checkRepair(o, []gts.Feature{{Key: key, Loc: left, Props: pa}, {Key: key, Loc: right, Props: base}})
 			checkRepair(o, []gts.Feature{{Key: key, Loc: gts.Complemented{Location: right}, Props: pb}, {Key: key, Loc: gts.Complemented{Location: left}, Props: pa}})
+		}
+	}
+	// classes are compared as they are, not by a digest: values chosen so that the
+	// printed classes collide under 32-bit FNV-1a and under the 31-polynomial hash
+	for _, pr := range [][2]string{{"navA", "gwvY9"}, {"navI", "gwvY1"}, {"ndzA", "gwuW9"}, {"Aa", "BB"}, {"AaAa", "BBBB"}} {
+		for _, key := range []string{"gene", "CDS"} {
+			left, right := gts.PartialRange(1, 5, gts.Partial3), gts.PartialRange(5, 9, gts.Partial5)
+			checkRepair(o, []gts.Feature{{Key: key, Loc: left, Props: gts.Props{{"gene", pr[0]}}}, {Key: key, Loc: right, Props: gts.Props{{"gene", pr[1]}}}})
 		}
 	}
 	// restoration: slice;...;slice;concat;repair
@@ -334,4 +344,85 @@ func cutBetweenParts(l gts.Location, cuts []int) bool {
 		}
 	}
 	return false
+}
+
+// gts repair, and gts split | gts join | gts repair: every record goes through
+// Repair -- with no source feature, with one, with several -- and a feature cut
+// by split and put back by join is one feature again.
+func runC12CLI(o *Out) {
+	if _, err := os.Stat(gtsBin); err != nil {
+		return
+	}
+	sb := newSandbox()
+	defer sb.close()
+	base := mkRecord(gts.Linear, 60)
+	p := gts.Props{{"gene", "a"}}
+	frag := func(withSources int) gts.FeatureSlice {
+		ff := gts.FeatureSlice{}
+		switch withSources {
+		case 1:
+			ff = append(ff, gts.Feature{Key: "source", Loc: gts.Range(0, 60), Props: gts.Props{{"organism", "x"}}})
+		case 2:
+			ff = append(ff, gts.Feature{Key: "source", Loc: gts.Range(0, 30), Props: gts.Props{{"organism", "x"}}},
+				gts.Feature{Key: "source", Loc: gts.Range(30, 60), Props: gts.Props{{"organism", "x"}}})
+		}
+		return append(ff,
+			gts.Feature{Key: "CDS", Loc: gts.PartialRange(5, 20, gts.Partial3), Props: p},
+			gts.Feature{Key: "CDS", Loc: gts.PartialRange(20, 33, gts.Partial5), Props: p},
+			gts.Feature{Key: "gene", Loc: gts.Complemented{Location: gts.PartialRange(40, 50, gts.Partial5)}, Props: p},
+			gts.Feature{Key: "gene", Loc: gts.Complemented{Location: gts.PartialRange(35, 40, gts.Partial3)}, Props: p},
+			gts.Feature{Key: "misc_feature", Loc: gts.Range(52, 58), Props: gts.Props{{"note", "alone"}}})
+	}
+	for ns := 0; ns <= 2; ns++ {
+		rec := gts.WithFeatures(base, frag(ns))
+		text := gbText(rec)
+		res := sb.run([]string{"repair"}, text, false, true)
+		got, ok := parseRecords(res.stdout)
+		line := fmt.Sprintf("gts repair on a record with %d source feature(s)", ns)
+		o.Dist["cli-repair"]++
+		if res.code != 0 || !ok || len(got) != 1 {
+			o.Violate("cli-repair-failed", line, fmt.Sprintf("exit %d", res.code))
+			continue
+		}
+		in, _ := parseRecords(text)
+		want := gts.Repair(append(gts.FeatureSlice(nil), in[0].Features()...))
+		if featsSx(got[0].Features()) != featsSx(want) {
+			o.Violate("cli-repair-differs-from-Repair", line, featsSx(got[0].Features())+" want "+featsSx(want))
+		}
+		if len(want) >= len(in[0].Features()) {
+			o.Violate("cli-repair-scenario-merges-nothing", line, featsSx(want))
+		}
+	}
+	// split | join | repair restores a feature cut in two, with and without a source feature
+	for ns := 0; ns <= 1; ns++ {
+		ff := gts.FeatureSlice{}
+		if ns == 1 {
+			ff = append(ff, gts.Feature{Key: "source", Loc: gts.Range(0, 60), Props: gts.Props{{"organism", "x"}}})
+		}
+		ff = append(ff, gts.Feature{Key: "CDS", Loc: gts.Range(10, 40), Props: p}, gts.Feature{Key: "misc_feature", Loc: gts.Range(25, 26), Props: gts.Props{{"note", "cut here"}}})
+		rec := gts.WithFeatures(base, ff)
+		text := gbText(rec)
+		line := fmt.Sprintf("split misc_feature | join | repair, %d source feature(s)", ns)
+		r1 := sb.run([]string{"split", "misc_feature"}, text, false, true)
+		r2 := sb.run([]string{"join"}, r1.stdout, false, true)
+		r3 := sb.run([]string{"repair"}, r2.stdout, false, true)
+		got, ok := parseRecords(r3.stdout)
+		o.Dist["cli-split-join-repair"]++
+		if r1.code != 0 || r2.code != 0 || r3.code != 0 || !ok || len(got) != 1 {
+			o.Violate("cli-pipeline-failed", line, fmt.Sprintf("exit %d %d %d", r1.code, r2.code, r3.code))
+			continue
+		}
+		n := 0
+		for _, f := range got[0].Features() {
+			if f.Key == "CDS" {
+				n++
+				if locSx(f.Loc) != locSx(gts.Range(10, 40)) {
+					o.Violate("cli-pipeline-not-restored", line, locSx(f.Loc))
+				}
+			}
+		}
+		if n != 1 {
+			o.Violate("cli-pipeline-not-restored", line, fmt.Sprintf("%d CDS features", n))
+		}
+	}
 }
